@@ -135,7 +135,8 @@ def run(ctx, ck):
             st_ = got[k]
             v = gfl.inline(st_.value, gfl.node_id_of(st_))
             r = gfl.roots(st_.value, gfl.node_id_of(st_))
-            if ('attr', k) not in r or ('param', param) not in r:
+            if not any(x[0] == 'attr' and (x[1] == k or x[1].startswith(k + '.')) for x in r) or \
+                    ('param', param) not in r:
                 wrong.append('%s = %s does not combine the old value with %s' % (k, norm(v), param))
                 continue
             if op == 'scale':
